@@ -51,13 +51,14 @@ def sh(cmd, cwd, env=None, timeout=3600):
 
 
 def main():
-    prop, ch = sys.argv[1], sys.argv[2]
-    wt = "/tmp/wt/%s" % prop
-    out = "/tmp/wt/%s-out/%s" % (prop, ch)
-    tgt = "/tmp/wt/%s-target" % prop
+    tag, ch = sys.argv[1], sys.argv[2]   # tag = property id, optionally with a round suffix (C01r2)
+    prop = tag[:3]
+    wt = "/tmp/wt/%s" % tag
+    out = "/tmp/wt/%s-out/%s" % (tag, ch)
+    tgt = "/tmp/wt/%s-target" % tag
     env = {"CARGO_TARGET_DIR": tgt, "CARGO_NET_OFFLINE": "true", "RUST_BACKTRACE": "0"}
-    kind, a, b = DEMOS.get((prop, ch)) or json.load(open(out + "/demo/confirm.json"))
-    res = {"property": prop, "change": ch, "t": time.strftime("%H:%M:%S")}
+    kind, a, b = DEMOS.get((tag, ch)) or json.load(open(out + "/demo/confirm.json"))
+    res = {"property": prop, "tag": tag, "change": ch, "t": time.strftime("%H:%M:%S")}
     rc, o = sh("git status --porcelain", wt)
     if o.strip():
         sh("git checkout -- . && git clean -fdq src tests", wt)
